@@ -22,7 +22,9 @@ theorem C06_result_header (env : Env) (ss ss' : Sealed) (blk : Block) (h : apply
   obtain ⟨basis, applied, _, _, _, h3, h4⟩ := (C06_iff env ss ss' blk).1 h
   exact ⟨h4, sealState_action env applied blk.action ss' h3⟩
 
-/-- the fallback header of `applyBatch` is irrelevant after `next_unsealed` (the previous header is in the history) -/
+/-- the fallback header of `applyBatch` is irrelevant after `next_unsealed` (the previous header is in the history).
+    Since the `fix:` for finding F25 the fallback is irrelevant in every state (`C03_applyBatch_fallback_unused`); the
+    statement is kept as it was. -/
 theorem C06_fallback_irrelevant (env : Env) (ss : Sealed) (basis : State) (h : nextUnsealed env ss = .ok basis)
     (txs : List Tx) (fb₁ fb₂ : Header) : applyBatch env basis txs fb₁ = applyBatch env basis txs fb₂ := by
   exact applyBatch_congr_lastHeader env basis txs fb₁ fb₂ (lastHeaderOf_nextUnsealed env ss basis h fb₁ fb₂)
